@@ -53,7 +53,7 @@ COMMON = re.compile(
     r"        (?P<subsecond>\d{1,9})"  # Subsecond
     "    )?"
     ")?"
-    "$",
+    r"\Z",
     re.VERBOSE | re.ASCII,
 )
 
